@@ -1,6 +1,28 @@
 import SJ.Proofs.GoRebuildLemmas
 set_option linter.unusedVariables false
 set_option linter.unusedSimpArgs false
+/-
+GoRebuild — the hand model `rebuild` (`Model/Serialize.lean`) IS the meaning of the regenerated syntax tree
+`Generated.GoSrc.goDeserialize_rebuild` (the tape reconstruction of `Serializer.Deserialize`, `parsed_serialize.go`).
+
+  `rebuild_source_tie`: for every destination tape `init` (shorter than 2^64 - 1 words), every tag stream and every value
+  stream, running the translated block in `GoSem` on the store `rebStore init tags values` returns
+    `dst, nil` with tape `tp`      exactly when `rebuild init tags values = .ok tp`,
+    `dst/nil, err`                 exactly when `rebuild … = .error _`,
+    panics                         exactly when `rebuild … = .panic` (never, by `Rebuild.rebuild_no_panic`),
+  is never `stuck` and never out of fuel with `len(dst.Tape) + 2` units.
+
+State correspondence (`Rep`): Go `off` ↔ `RebState.off`, `nSkips` ↔ `nSkips`, the re-sliced `values` ↔ the suffix
+`values.extract vpos values.size`, `len(dst.Tape)` ↔ `tape.size`, `dst.Tape` ↔ the interpreter's tape.  The other locals
+(`t`, `tag`, `tagDst`, `i`, `sOffset`, `sLen`, `val`) are scratch.
+
+Structure: `head_sim` (guard `off == len`, `tag`, `tagDst`, owed skips = `Rebuild.flushPhase`, using `flush_seq` for the
+inner `for`), `guard_exec` + `mainSw_select` + `clause0_sim … clause7_sim` (the two switches = `Rebuild.dispatch`),
+`step_sim` (= `rebStep`), `loop_sim` (induction over the tags, `execRange` = `rebLoop`), `tail_sim` (final flush, the two
+size checks, `return dst, nil`).  Every piece of syntax the lemmas talk about is tied to the generated tree by `rfl`
+(`body_split`, `loopBody_eq`, `tail_eq`, `guardSw_eq`, the `hbody` equations), so a change of this part of `Deserialize`
+breaks a proof here.
+-/
 namespace SJ.GoRebuild
 open SJ SJ.GoSem SJ.Generated SJ.Rebuild
 
